@@ -98,6 +98,25 @@ def run (ctx):
   sfast = q.find_method(repo, riw, 'send_fast', 'C20'); rclose = q.find_method(repo, riw, 'close', 'C20'); iclose = q.find_method(repo, iow, 'close', 'C20')
   for f in (csend, dsend, drun, slc, isend, dosend, cons, sfast, rclose, iclose): ctx.analysed(f)
 
+  # ---- D0 slicing for the deferred queue, by evaluation with PIPE_BUF = 4: the pieces, in order, are exactly the data - nothing lost,
+  # nothing twice - also when the length is an exact multiple of the piece size or smaller than one piece
+  gs_ = q.cfg_of(slc)
+  bad_ = []; unk_ = 0
+  for ln_ in (0, 1, 3, 4, 5, 8, 9, 12, 13):
+    data_ = bytes(range(65, 65 + ln_))
+    outs_ = []
+    for p_, e_ in q.paths_under(repo, mod, gs_, q.Env({slc.params[1]: data_, 'PIPE_BUF': 4}), gs_.entry, [n_ for n_ in gs_.nodes if n_.kind == 'return'], ds, limit=40):
+      try: outs_.append(q.eval_env2(repo, mod, p_[-1].ast.value, e_, ds))
+      except Exception: outs_.append('?')
+    if len(outs_) != 1 or not isinstance(outs_[0], list) or not all(isinstance(x_, bytes) for x_ in outs_[0]): unk_ += 1; continue
+    pcs_ = outs_[0]
+    if b''.join(pcs_) != data_ or any(len(x_) == 0 or len(x_) > 4 for x_ in pcs_): bad_.append((ln_, pcs_))
+  if unk_:
+    ctx.undecided('R-AGREE', slc, "the slices of a deferred message are, in order, exactly the message", "%d of 9 sample lengths not evaluable" % unk_, slc, 'D1')
+  else:
+    ctx.ob('R-AGREE', slc, "the slices of a deferred message are, in order, exactly the message", not bad_, "lengths 0..13 with a piece size of 4" if not bad_ else
+           "with a piece size of 4 a %d-byte message is sliced into %s: %s" % (bad_[0][0], bad_[0][1], "bytes are queued twice - the switch receives a duplicated tail and the stream is corrupt from there on" if len(b''.join(bad_[0][1])) > bad_[0][0] else
+           "the pieces do not add up to the message"), slc, 'D1')
   # ---- D1 ----------------------------------------------------------------------
   n_sites = 0
   for f, m in ((csend, mod), (drun, mod), (dosend, iom), (sfast, iom)):
